@@ -142,6 +142,23 @@ def _points(results):
             yield res["case"], res["ref"], pr
 
 
+def _run_cases_fresh(ctx, name, checks):
+    """common.run_cases, robust against another check rebuilding model/Graph.vo between our Coq
+    build and this evaluation (minutes later in the thorough tier): the model objects are brought
+    up to date under the Coq lock first, and an 'inconsistent assumptions' failure is retried."""
+    last = None
+    for _ in range(3):
+        with common.CoqLock():
+            common.coq_make(list(MODEL_TARGETS))
+        try:
+            return common.run_cases(ctx, name, HEADER, checks, chunk=25)
+        except RuntimeError as exc:
+            last = exc
+            if "inconsistent assumptions" not in str(exc):
+                raise
+    raise last
+
+
 def correspondence(ctx):
     results = _run(ctx)
     checks, owners = [], []
@@ -153,7 +170,7 @@ def correspondence(ctx):
         checks.append(crash_state_check(db))
         owners.append((case, pr))
     ctx.count("crash_states_replayed_in_model", len(checks))
-    bad = common.run_cases(ctx, "crashstates", HEADER, checks, chunk=25) if checks else []
+    bad = _run_cases_fresh(ctx, "crashstates", checks) if checks else []
     ctx.traces_validated += len(checks) - len(bad)
     for b in bad[:3]:
         case, pr = owners[b]
@@ -163,6 +180,8 @@ def correspondence(ctx):
                         f"reset_error={pr['db'].get('reset_error')}",
                         witness={"case": case, "point": pr["point"]})
     # the model's verdict on the witnesses must be what the real system shows
+    with common.CoqLock():
+        common.coq_make(list(MODEL_TARGETS))
     verdicts = common.eval_terms(ctx, "witness", HEADER, [
         "no_orphans_b W2 [] d6_sys", "no_orphans_b W1 [s_o] d6b_sys",
         "match open_db_now false 100 (db_at 100 d6_history 0) with Ok _ => true | _ => false end"])
